@@ -221,6 +221,26 @@ theorem active_only_before_retryAfter (H : Hash) (c : Cfg) (hv : c.Valid) (ops :
     rw [hk] at hkind hkey
     exact ⟨hkind, hk, z, hz, by rw [← hzz]; exact hkey, hsuf⟩
 
+/-- **The same on the wire route.** After any history, a `LookupWire` hit is
+served strictly before its `retryAfter` and is backed by a failure the history
+recorded for exactly the stored key (which `wire_hit_is_exact_or_ancestor`
+ties to the asked wire name: the exact unscoped question, or a suffix at a
+label boundary) at some `τ` with `now < τ + backoff(streak) ≤ τ + max ≤ τ + 5 min`.
+An expired zone or question state is never a hit on this route either. -/
+theorem wire_active_only_before_retryAfter (H : Hash) (c : Cfg) (hv : c.Valid) (ops : List Op) (now : Int)
+    (w : Wire) (qt qc : Nat) (cd : Bool) (e : Entry)
+    (h : lookupWire H (ops.foldl (applyOp H c) []) now w qt qc cd = some e) :
+    now < e.retryAfter ∧
+    ∃ ev ∈ events ops, keyMatch ev e ∧
+      e.retryAfter = ev.time + (backoff c e.streak : Int) ∧
+      now < ev.time + (c.max : Int) ∧ now < ev.time + ((300 * second : Nat) : Int) := by
+  obtain ⟨hact, _⟩ := wire_hit_is_exact_or_ancestor H _ now w qt qc cd e h
+  obtain ⟨hh, hg⟩ := lookupWire_get H _ now w qt qc cd e h
+  obtain ⟨ev, hev, hm, _, hra⟩ := reachable_inv H c hv ops hh e hg
+  obtain ⟨_, _, _, _, henv, hmax⟩ := backoff_envelope c hv
+  have hb := henv e.streak
+  exact ⟨hact, ev, hev, hm, hra, by omega, by omega⟩
+
 /-! ## record -/
 
 /-- **Idempotent inside a generation.** Once a failure is recorded, every
@@ -907,6 +927,12 @@ example : cacheNewCfg 0 (30 * second) (20 * second) = ⟨5 * second, 300 * secon
 -- wire_born_names_are_wellformed: 3"a.b"2"c\\"0 decodes to  a\.b.c\\.  (escaped dot, escaped backslash, rooted)
 example : wirePres [3, 97, 46, 98, 2, 99, 92, 0] = some [97, 92, 46, 98, 46, 99, 92, 92, 46] := by decide
 example : isFqdn (canonicalName [97, 92, 46, 98, 46, 99, 92, 92, 46]) = true := by decide
+
+-- wire_active_only_before_retryAfter: the zone state of `hist` serves 3www7example3com0 one ns before retryAfter, not at it
+example : (lookupWire H1 (hist.foldl (applyOp H1 cfg0) []) (16 * second - 1)
+    [3, 119, 119, 119, 7, 101, 120, 97, 109, 112, 108, 101, 3, 99, 111, 109, 0] 28 1 true).isSome = true := by decide
+example : lookupWire H1 (hist.foldl (applyOp H1 cfg0) []) (16 * second)
+    [3, 119, 119, 119, 7, 101, 120, 97, 109, 112, 108, 101, 3, 99, 111, 109, 0] 28 1 true = none := by decide
 
 end Examples
 
